@@ -79,6 +79,28 @@ pub use types::*;
 mod mp4box;
 pub use mp4box::*;
 
+/// Verification hook, compiled only with `--cfg mp4_verif`: names the box and entry types that
+/// live in crate-private modules, so that an external conformance harness can construct and
+/// inspect them. Adds no behaviour.
+#[cfg(mp4_verif)]
+pub mod verif {
+    pub use crate::mp4box::avc1::{AvcCBox, NalUnit};
+    pub use crate::mp4box::ctts::CttsEntry;
+    pub use crate::mp4box::dinf::{DrefBox, UrlBox};
+    pub use crate::mp4box::elst::ElstEntry;
+    pub use crate::mp4box::hev1::{HvcCArray, HvcCArrayNalu, HvcCBox};
+    pub use crate::mp4box::ilst::IlstItemBox;
+    pub use crate::mp4box::mp4a::{
+        DecoderConfigDescriptor, DecoderSpecificDescriptor, ESDescriptor, EsdsBox,
+        SLConfigDescriptor,
+    };
+    pub use crate::mp4box::stsc::StscEntry;
+    pub use crate::mp4box::stts::SttsEntry;
+    pub use crate::mp4box::tkhd::Matrix;
+    pub use crate::mp4box::tx3g::RgbaColor;
+    pub use crate::mp4box::vmhd::RgbColor;
+}
+
 mod track;
 pub use track::{Mp4Track, TrackConfig};
 
